@@ -19,7 +19,7 @@ def install_shuffle(seed):
         def __init__(self, path):
             with real_scandir(path) as it:
                 self.entries = list(it)
-            rnd = random.Random(f"{seed}:{os.fspath(path) if path is not None else '.'}")
+            rnd = random.Random(f"{seed}:{os.fspath(path) if isinstance(path, (str, bytes, os.PathLike)) else '.'}")
             self.entries.sort(key=lambda e: e.name)
             rnd.shuffle(self.entries)
             self.i = 0
@@ -55,7 +55,7 @@ def install_shuffle(seed):
     os.listdir = listdir
 
 
-def dump(analysis):
+def dump(analysis, covdb=None):
     import tomllib
     import warnings
 
@@ -88,7 +88,26 @@ def dump(analysis):
     dups = sorted(sorted(os.path.relpath(str(p), root) for p in s) for s in report.find_duplicates(cb))
     sm = state.get_setmap(cb)
     metrics = [repr(report.divergence(sm)), repr(report.coverage(sm)), repr(report.average_coverage(sm))]
-    json.dump({"attr": attr, "setmap": setmap, "dups": dups, "metrics": metrics, "members": sorted(os.path.relpath(f, root) for f in cb)}, sys.stdout, sort_keys=True)
+    out = {"attr": attr, "setmap": setmap, "dups": dups, "metrics": metrics, "members": sorted(os.path.relpath(f, root) for f in cb)}
+    if covdb:
+        # the coverage export of one platform, produced by the real front end in this same process
+        import contextlib
+        import io
+        import tempfile
+
+        from codebasin.coverage import __main__ as covmain
+
+        with tempfile.TemporaryDirectory() as td:
+            covp = os.path.join(td, "cov.json")
+            with contextlib.redirect_stdout(io.StringIO()), contextlib.redirect_stderr(io.StringIO()):
+                try:
+                    covmain.cli(["compute", "-S", root, "-o", covp, covdb])
+                except SystemExit as e:  # the front end ends with sys.exit(0)
+                    if e.code not in (0, None):
+                        raise RuntimeError(f"cbi-cov exit {e.code}")
+            with open(covp) as f:
+                out["cov"] = {e["file"]: [e["id"], sorted(e["used_lines"]), sorted(e["unused_lines"])] for e in json.load(f)}
+    json.dump(out, sys.stdout, sort_keys=True)
 
 
 def main():
@@ -96,7 +115,7 @@ def main():
     if seed != "none":
         install_shuffle(seed)
     if mode == "dump":
-        dump(rest[0])
+        dump(*rest[:2])
         return
     mod = {"codebasin": "codebasin", "tree": "codebasin.tree", "cov": "codebasin.coverage"}[mode]
     sys.argv = [mod] + rest
